@@ -80,9 +80,15 @@ def gen_case(rng, tier, avoid):
     want_cross = rng.random() < 0.3
     if want_cross:
         breach = None          # the specification itself is clean; the breaches come from assignments made in the other mode
+    want_hist = not want_cross and rng.random() < 0.15
+    if want_hist:
+        # restrictions checked when writing: built and written outside first (accepted), then written inside the context
+        breach = gen.pick(rng, ['signed_data', 'channel_two_frames', 'channel_no_frame', 'nonuniform_index', 'nonuniform_index', None])
     spec = build(rng, breach)
     body = list(spec.ops) + [gen.write_op(spec, path='inside.dlis')]
     exit_kind = rng.choice(['normal', 'normal', 'io_fault', 'interrupt', 'rejected_call'])
+    if want_hist:
+        exit_kind = 'normal'
     if exit_kind == 'io_fault':
         body[-1]['faults'] = [{'kind': rng.choice(['open_fail', 'write_fail', 'close_fail']), 'at_event': rng.choice([0, 1, 2, 3, 5]),
                                'partial': 7}]
@@ -96,7 +102,7 @@ def gen_case(rng, tier, avoid):
     elif exit_kind == 'rejected_call':
         body.insert(rng.randint(2, len(body) - 1), {'op': 'add', 'lf': spec.lfs[0]['lf'], 'kind': 'zone', 'h': 'rej1',
                                                       'name': 'not hc compatible', 'kwargs': {}, 'propagate': True})
-    if breach is None and not want_cross and rng.random() < 0.15 and exit_kind == 'normal' and 'rename_inside_hc' not in avoid:
+    if breach is None and not want_cross and not want_hist and rng.random() < 0.15 and exit_kind == 'normal' and 'rename_inside_hc' not in avoid:
         # rename an object inside the context to a name the mode forbids: a breach made by assignment instead of construction
         tgt = gen.pick(rng, [op for op in spec.ops if op.get('op') == 'add' and op['kind'] in ('channel', 'zone', 'equipment', 'frame', 'axis')] or [None])
         if tgt is not None:
@@ -126,8 +132,15 @@ def gen_case(rng, tier, avoid):
             body = sets + [op for op in body if op.get('op') == 'write']
         else:
             cross_after = sets
+    if want_hist:
+        cross = 'written_outside_then_inside'
+        pre = [op for op in body if op.get('op') != 'write']
+        for k in range(rng.choice([1, 1, 2])):
+            pre.append(gen.write_op(spec, path='pre%d.dlis' % k))
+        body = [op for op in body if op.get('op') == 'write']
     depth = rng.choice([1, 1, 2, 3])
     block = {'op': 'hc_block', 'form': rng.choice(['with', 'decorator']), 'body': body}
+    hist_pre = pre
     for d in range(depth - 1):
         pre = []
         post = []
@@ -135,7 +148,7 @@ def gen_case(rng, tier, avoid):
             s2 = build(rng, None, px='n%d_' % d, fid='g%d' % d)
             post = list(s2.ops) + [gen.write_op(s2, path='nested%d.dlis' % d)]
         block = {'op': 'hc_block', 'form': rng.choice(['with', 'decorator']), 'body': pre + [block] + post}
-    hist = pre + [block]
+    hist = hist_pre + [block]
     if cross == 'built_inside_assigned_outside':
         # after the context: the same non-standard values must be accepted (with a warning), and the file be writable
         hist += [dict(x, expect_ok_outside=True) for x in cross_after] + [gen.write_op(spec, path='after.dlis')]
